@@ -44,7 +44,7 @@ RPC_EXEMPT = {'next_from_generator': 'legacy stub: no server binding and no'
 
 
 def run(ctx: Ctx):
-  for r in (r1, r2, r3, r4, r5):
+  for r in (r1, r2, r3, r4, r5, r6, r7):
     ctx.guard(r)
 
 
@@ -488,11 +488,103 @@ def r5(ctx: Ctx):
   ctx.floor(rule, 2)
 
 
+def r6(ctx: Ctx):
+  rule = 'R-C14-6'
+  ctx.rule(rule, 'a (re)built server starts with the shutdown request cleared:'
+           ' in every function that stores a new courier server into'
+           ' self._server, each path through that store also stores'
+           ' `_shutdown_requested = False` (before it or before returning) —'
+           ' otherwise a server rebuilt after a shutdown keeps answering'
+           ' "shutting down" and its serving loop exits at once')
+  repo = ctx.repo
+  n = 0
+  for cls in ('CourierServer', 'PrefetchedCourierServer'):
+    ci = repo.cls(CS, cls)
+    for fi in ci.methods.values():
+      g = cfgm.cfg_of(fi.node)
+      builds = [nd for nd in g.nodes if nd.kind == 'stmt' and isinstance(nd.ast, ast.Assign)
+                and any(is_self_attr(t, '_server') for t in nd.ast.targets)
+                and isinstance(nd.ast.value, ast.Call)]
+      clear = lambda nd: nd.kind == 'stmt' and isinstance(nd.ast, ast.Assign) and any(
+          is_self_attr(t, '_shutdown_requested') for t in nd.ast.targets) and isinstance(
+              nd.ast.value, ast.Constant) and nd.ast.value.value is False
+      for b in builds:
+        n += 1
+        before = g.must_pass(g.entry, [b], clear, cfgm.only_normal) is None
+        after = g.must_pass(b, [g.exit_ret], clear, cfgm.only_normal) is None
+        if before or after:
+          ctx.ok(rule, fi, f'{fi.qualname}: `{b.text()[:50]}` paired with clearing the request', b.ast)
+        else:
+          ctx.fail(rule, fi, f'{fi.qualname}: self._server = <new server> => self._shutdown_requested = False',
+                   f'{fi.qualname} builds a new server without clearing a previous'
+                   ' shutdown request on that path: after a shutdown the rebuilt'
+                   ' server answers every call with the "shutting down" timeout'
+                   ' and run_until_shutdown returns immediately', node=b.ast)
+  ctx.floor(rule, 1, n)
+
+
+OBJECT_STORE_CLEAR = ('clear_object', 'LazyObject.result_.cache_clear')
+
+
+def r7(ctx: Ctx):
+  rule = 'R-C14-7'
+  ctx.rule(rule, '"the object itself stays on the server": no callable bound as'
+           ' an RPC method reaches (through resolved calls, depth <= 4) the'
+           ' routine that empties the store of server-held lazy objects —'
+           ' clients hold handles into that store; only the memoisation cache'
+           ' of pure calls may be cleared remotely')
+  from mlmverif.effects import Effects
+  eff = Effects(ctx.repo)
+  table = bound_table(ctx.repo)
+  n = 0
+  for name, tgt in sorted(table.items(), key=lambda kv: str(kv[0])):
+    if not isinstance(tgt, FuncInfo):
+      continue
+    n += 1
+    todo = [(tgt, [tgt.qualname])]
+    seen = set()
+    hit = None
+    while todo and hit is None:
+      fi, chain = todo.pop()
+      if (fi.module.name, fi.qualname) in seen or len(chain) > 5:
+        continue
+      seen.add((fi.module.name, fi.qualname))
+      for c in ast.walk(fi.node):
+        if not isinstance(c, ast.Call):
+          continue
+        txt = unparse(c.func)
+        if txt.split('.')[-1] == OBJECT_STORE_CLEAR[0] or txt.endswith(OBJECT_STORE_CLEAR[1]):
+          hit = (fi, c, chain)
+          break
+        callee = eff.resolve(c, fi)
+        if callee is not None:
+          todo.append((callee, chain + [callee.qualname]))
+    if hit:
+      fi, c, chain = hit
+      ctx.fail(rule, fi, f'RPC {name!r} -> {" -> ".join(chain)} -> {unparse(c.func)}',
+               f'the RPC method {name!r} empties the store of server-held lazy'
+               f' objects (via {" -> ".join(chain)}): every remote handle a client'
+               ' still holds dereferences to a missing object', node=c)
+    else:
+      ctx.ok(rule, tgt, f'RPC {name!r} cannot empty the object store', tgt.node)
+  ctx.floor(rule, 6, n)
+
+
 from mlmverif.selfcheck import B, OK  # noqa: E402
 
 _S = 'chainables/courier_server.py'
 _U = 'utils/courier_utils.py'
 VARIANTS = [
+    B('shutdown-flag-cleared-only-with-new-thread', _S,
+      '    if self._server is None:\n      self._shutdown_requested = False\n      self._server = courier.Server',
+      '    if self._server is None:\n      self._server = courier.Server', 'R-C14-6',
+      extra=((_S, '      if not self._thread:\n        self._thread = threading.Thread(',
+              '      if not self._thread:\n        self._shutdown_requested = False\n        self._thread = threading.Thread('),)),
+    OK('shutdown-flag-cleared-after-setup', _S,
+       '      self._shutdown_requested = False\n      self._server = courier.Server(self.server_name, port=self.port)\n      self.set_up()',
+       '      self._server = courier.Server(self.server_name, port=self.port)\n      self.set_up()\n      self._shutdown_requested = False'),
+    B('clear-cache-rpc-wipes-objects', 'chainables/transform.py',
+      '  lazy_fns.clear_cache()\n', '  lazy_fns.clear_cache()\n  lazy_fns.clear_object()\n', 'R-C14-7'),
     B('idle-shutdown-without-flag', _S,
       '          self._shutdown_requested = True\n          break', '          break', 'R-C14-4'),
     B('id-allocator-read-modify-write', 'chainables/lazy_fns.py',
